@@ -9,6 +9,8 @@
 // range of each component; for every variant the decoder accepts the stored encoding the
 // library reports for a component (Cbor()), its re-serialisation (cbor.Encode) and its
 // identifier (Hash()/Id()) must be the located wire bytes / their blake2b-256.
+// History dimension (reuse.go): a second decode into the same receiver must leave what the
+// first decode reported (kept Cbor() slice, by-value copy) intact and report the second.
 package main
 
 import (
@@ -723,7 +725,7 @@ func main() {
 	if c.Thorough() {
 		d2mode = 2
 	}
-	deadline := c.Deadline(45*time.Second, 8*time.Minute)
+	deadline := c.Deadline(25*time.Second, 8*time.Minute)
 	if d, err := time.ParseDuration(os.Getenv("VERIF_DEADLINE")); err == nil && d > 0 { // debugging aid (overloaded machine)
 		deadline = time.Now().Add(d)
 	}
@@ -755,6 +757,7 @@ func main() {
 	c.Set("counters", counters)
 	mu.Unlock()
 	c.Assume("blake2b-256 (golang.org/x/crypto) is trusted")
+	c.Assume("receiver reuse: decoding into an existing value with cbor.Decode is a supported use (the era transaction decoders reset their cached fields for it), and decoded objects may be copied by value")
 	c.Assume("blocks are decoded with the documented SkipBodyHashValidation option (re-encoding a body segment necessarily changes the body hash the header commits to); headers and transactions with their plain constructors")
 	c.Assume("a Shelley…Conway transaction has no contiguous encoding inside a block; for those Transaction.Cbor() is required to be an array whose body, witness-set and auxiliary-data items are the exact wire bytes of those components")
 	c.Finish()
